@@ -116,8 +116,11 @@ func (ex *Exec) oblige(kind, pc, goal string, pos token.Pos, detail string) {
 		Prefix: len(ex.em.lines), PC: pc, Goal: goal}
 	ex.applyKnownFindings(ob)
 	ex.em.Obls = append(ex.em.Obls, ob)
-	// after the check, the goal may be assumed on this path
-	ex.em.assume(pc, goal)
+	// after the check, the goal may be assumed on this path (not for a recorded finding: the goal is known to fail,
+	// assuming it would make everything downstream vacuous)
+	if ob.KnownFinding == "" {
+		ex.em.assume(pc, goal)
+	}
 }
 
 func (ex *Exec) konst(c *ssa.Const) Val {
